@@ -606,7 +606,7 @@ func c01SkipNotes(e *env) {
 		return
 	}
 	pct := func(n int) string { return strconv.FormatFloat(100*float64(n)/float64(cases), 'f', 2, 64) + "%" }
-	e.res.Note("skipped by the oracle: %d of %d expression cases (%s); of these outside the numeric model (int64 overflow, randomInt, round with digits, a float beyond the exponent range, an int beyond 2^53 used as a float, a function on a value it cannot treat exactly): %d (%s), "+
+	e.res.Note("skipped by the oracle: %d of %d expression cases (%s); of these outside the numeric model (int64 overflow, randomInt, round with digits, a float beyond the exponent range, a function on a value it cannot treat exactly): %d (%s), "+
 		"float outside the printing domain: %d (%s). Cases with a float outside the OLD printing domain (|x| >= 10^6 or more than 9 fraction bits) among literals and data: %d, of which %d are checked against an expected output or error "+
 		"(%d expected texts contain a float in exponent form). "+
 		"HISTORY (quick tier, default seed): (a) commit e7d64ae -- printing modelled only for |x| < 10^6 with at most 9 fraction bits, float results only when exact, generator confined to |x| < 2^11 with 6 fraction bits: 291 of 15713 skipped (1.85%%): numeric model 246, printing domain 10, other 35; "+
